@@ -503,6 +503,17 @@ func (A *Analysis) NewQuery(track []int) (*Query, error) {
 			A.Cond(ifi.Cond)
 		}
 	}
+	// translate every boolean phi operand so that derived flags exist as atoms before the closure
+	for n := -1; n != len(A.Atoms); {
+		n = len(A.Atoms)
+		for i := 0; i < len(A.Atoms); i++ {
+			if ph := A.Atoms[i].Phi; ph != nil {
+				for _, e := range ph.Edges {
+					A.Cond(e)
+				}
+			}
+		}
+	}
 	set := map[int]bool{}
 	for _, t := range track {
 		if t >= 0 {
